@@ -118,9 +118,12 @@ Definition rres (A : Type) := outcome A derr.
 Definition z_done (z : zst) : bool :=
   match snd (zinf (negb (z_ignore_adler z)) (z_in z)) with DDone => z_started z | _ => false end.
 
-(* ZlibStream::decompress: consumes all of [data] (greedy denotation), returns newly determined bytes *)
+(* ZlibStream::decompress: consumes all of [data] (greedy denotation), returns newly determined bytes.
+   Data offered after the end of the zlib stream is consumed and ignored; the ghost input history [z_in] records it all the same (the
+   denotation of an inflater that has finished does not change when more input follows - contract [zinf_done_stable] of
+   Proofs/StreamWhole.v), which keeps the state a function of the bytes consumed and not of how they were cut into calls. *)
 Definition z_decompress (z : zst) (data : list Z) : rres (zst * list Z) :=
-  if z_done z then Ok (z, [])
+  if z_done z then Ok (z <| z_in := z_in z ++ data |>, [])
   else
     let inp := z_in z ++ data in
     let '(out, stat) := zinf (negb (z_ignore_adler z)) inp in
